@@ -237,8 +237,25 @@ def r4_progress(rep, facts, g):
                 continue
             p = x['p']
             if x.get('handloop'):
+                def passes_empty(t):
+                    """can one pass through the loop body finish without leaving the loop and without consuming input?
+                    (`let Some(x) = opt(p).parse_next(i)? else { break }` / `if let Some(x) = .. { a } else { break }`: going on means p matched)"""
+                    op = t['op']
+                    if op == 'empty':
+                        return not t.get('brk')
+                    if op == 'seq':
+                        its = t['items']
+                        if t.get('iflet') == 'Some' and len(its) == 2 and its[0]['op'] == 'opt' and its[1]['op'] == 'alt' and len(its[1]['items']) == 2:
+                            a, b_ = its[1]['items']
+                            return (pm.nullable_of(g, its[0]['p']) and passes_empty(a)) or passes_empty(b_)
+                        return all(passes_empty(y) for y in its)
+                    if op == 'alt':
+                        return any(passes_empty(y) for y in t['items'])
+                    return pm.nullable_of(g, t)
                 first = p['items'][0] if p['op'] == 'seq' else p
-                if first['op'] == 'opt':
+                if not passes_empty(p):
+                    rep.ok(R, key, 'every pass through the loop body that does not leave the loop consumes input', loc)
+                elif first['op'] == 'opt':
                     ok = not pm.nullable_of(g, first['p'])
                     rep.check(R, key, ok, 'while let Some(_) = opt(p): p consumes input', f'`{short(d)}`: the loop continues on Some(_) of a parser that can succeed on empty input', loc)
                 else:
